@@ -32,6 +32,9 @@ def model(c, runs):
             dict(name=SPIN, module="Channel", expect="SendallNoSpin",
                  cfg=cfg_text(constants=dict(BASE, UsersA={"a1"}, UsersB="@{}", OpsA={"sendall", "shutdown_write"}, MaxCalls=2,
                                              FixSendall=False, SendN=2), invariants=["SendallNoSpin"])),
+            dict(name="sensitivity: no packet floor (chunk of 0 bytes: every iteration of sendall without progress)", module="Channel",
+                 expect="SendallNoSpin",
+                 cfg=cfg_text(constants=dict(small, UsersA={"a1"}, UsersB="@{}", OpsA={"sendall"}, MaxPkt=0), invariants=MINVS)),
             dict(name="sensitivity: early_return", module="Channel", expect="ReturnedMeansAll",
                  cfg=cfg_text(constants=dict(small, UsersA={"a1"}, OpsA={"sendall", "sendall_err"}, OpsB={"recv"}, Mut="early_return"), invariants=MINVS)),
             dict(name="sensitivity: wait_window_only (the window wait re-tests only the window: a close wakes nobody)", module="Channel",
@@ -98,6 +101,13 @@ def model(c, runs):
 
 
 FIXED = [
+    # peers advertising a maximum packet size below the 4096-byte floor
+    {"threads": {"a1": [("sendall", 200)]}, "pkt": 32},
+    {"threads": {"a1": [("sendall_err", 150)]}, "pkt": 1},
+    {"threads": {"a1": [("sendall", 100), ("sendall", 1)]}, "pkt": 64},
+    {"threads": {"a1": [("sendall", 130)], "b1": [("recv", 100)]}, "pkt": 65},
+    {"threads": {"a1": [("sendall", 300)], "a2": [("sendall_err", 40)]}, "pkt": 100},
+    {"threads": {"a1": [("sendall", 9000)]}, "pkt": 4095},
     {"threads": {"a1": [("shutdown_write",), ("sendall", 100)]}},
     {"threads": {"a1": [("shutdown_write",), ("sendall_err", 100)]}},
     {"threads": {"a1": [("sendall", 9000)], "a2": [("shutdown_write",)]}},
@@ -125,15 +135,15 @@ def programs(rnd, n):
     progs = []
     for _ in range(n):
         win = rnd.choice([32768, 32768, 50000, 2 ** 32 - 1])
-        pkt = rnd.choice([4096, 16384, 32768])
+        pkt = rnd.choice([4096, 16384, 32768, rnd.choice([1, 32, 64, 65, 100, 4095])])
         par = {"win": {"A": win, "B": win}, "pkt": {"A": pkt, "B": pkt},
                "tmo": {"A": rnd.choice(["block", "timed", "nonblock"]), "B": "block"}}
         th = {}
         k = rnd.choice(["sendall", "sendall", "sendall_err"])
-        size = rnd.choice([1, pkt - 64, pkt, 3 * pkt, 40000])
+        size = rnd.choice([1, pkt - 64, pkt, 3 * pkt, 40000]) if pkt >= 4095 else rnd.choice([1, 33, 64, 200])
         pre = rnd.choice([[], [], [("shutdown_write",)], [("close",)], [("send", 10)], [("shutdown_rw",)]])
         th["a1"] = pre + [(k, size)] + rnd.choice([[], [(k, 5)]])
-        other = rnd.choice([[], [("shutdown_write",)], [("close",)], [("sendall", pkt)], [("shutdown_write",), ("close",)]])
+        other = rnd.choice([[], [("shutdown_write",)], [("close",)], [("sendall", min(pkt, 8192))], [("shutdown_write",), ("close",)]])
         if other:
             th["a2"] = other
         peer = rnd.choice([[], [("close",)], [("shutdown_write",)], [("recv", 65536), ("recv", 65536)], [("recv", 4096), ("close",)]])
@@ -181,7 +191,7 @@ def run(c):
     laps = {"model+replay_s": round(time.time() - t0, 1)}
     progs = []
     for p in FIXED:
-        prog = {"par": {"win": {"A": 32768, "B": 32768}, "pkt": {"A": 4096, "B": 4096}, "tmo": {"A": p.get("tmo", "block"), "B": "block"}},
+        prog = {"par": {"win": {"A": 32768, "B": 32768}, "pkt": {"A": 4096, "B": p.get("pkt", 4096)}, "tmo": {"A": p.get("tmo", "block"), "B": "block"}},
                 "threads": p["threads"]}
         if "lost" in p:
             prog["lost"] = p["lost"]
